@@ -690,6 +690,11 @@ func otherFamilies(rng *rand.Rand) []family {
 		zero0[16] = 1
 		cl["random"] = append(cl["random"], zero0) // y = i: validity unknown to the harness -> consistency only
 		cl["coord-eq-p"] = append(cl["coord-eq-p"], alias2)
+		// the points of order 4, (i, 0) and (-i, 0): y = 0, and x is purely imaginary (the square root of the real non-residue -1)
+		o4 := make([]byte, 32)
+		o4n := make([]byte, 32)
+		o4n[31] = 0x80
+		cl["valid"] = append(cl["valid"], o4, o4n)
 		N := fourq.Params().N
 		fs = append(fs, family{"fourq-point", "fourq.Point.Unmarshal", func(b []byte) (bool, bool, bool) {
 			var in [32]byte
